@@ -1206,6 +1206,8 @@ func (m *clientMock) ExpectGetEx(key string, expiration time.Duration) *Expected
 		} else {
 			cmd = m.raw.B().Getex().Key(key).ExSeconds(formatSec(expiration)).Build()
 		}
+	} else if expiration == 0 {
+		cmd = m.raw.B().Getex().Key(key).Persist().Build()
 	} else {
 		cmd = m.raw.B().Getex().Key(key).Build()
 	}
@@ -2377,7 +2379,10 @@ func (m *clientMock) ExpectScanType(cursor uint64, pattern string, count int64, 
 	if count > 0 {
 		cmd = cmd.Args("COUNT", strconv.FormatInt(count, 10))
 	}
-	completed := cmd.Args("TYPE", keyType).ReadOnly()
+	if keyType != "" {
+		cmd = cmd.Args("TYPE", keyType)
+	}
+	completed := cmd.ReadOnly()
 	e := m.push(match(completed.Commands()...), defaultArrayResult())
 	return &ExpectedScan{exp: e}
 }
